@@ -19,7 +19,7 @@ LEVEL_NOTE = 'trusted: CPython/shutil, tmpfs, shim mount rules; the own mtime of
 RULE = ('product of target kind (file, dir, nothing, link->file, link->dir, other-volume file, other-volume dir) x target text '
         '(abs, rel) x slashes (0-3) x reach (direct, via linked parent) x placement (home volume, other volume, other volume with blocked trash dirs + home fallback = cross-device move); a same-named regular file is trashed before the link is restored; non-trivial = '
         'the argument passed the existence screening; distinct = outcome class x all dimensions')
-TARGETS = ['file', 'dir', 'nothing', 'chain-file', 'chain-dir', 'xvol-file', 'xvol-dir']
+TARGETS = ['file', 'dir', 'nothing', 'chain-file', 'chain-dir', 'xvol-file', 'xvol-dir', 'mount-point']
 FORMS = ['abs', 'rel']
 REACH = ['direct', 'linked-parent']
 PLACE = ['home', 'vol', 'vol-fallback']
@@ -57,9 +57,11 @@ def run_case(c):
     t = c['target']
     abs_t = {'file': B + '/real/tfile', 'dir': B + '/real/tdir', 'nothing': B + '/real/void',
              'chain-file': B + '/real/mid-file', 'chain-dir': B + '/real/mid-dir',
-             'xvol-file': '/mnt/v2/t/tfile', 'xvol-dir': '/mnt/v2/t/tdir'}[t]
+             'xvol-file': '/mnt/v2/t/tfile', 'xvol-dir': '/mnt/v2/t/tdir', 'mount-point': '/mnt/v2'}[t]
     if c['form'] == 'rel':
-        if t.startswith('xvol'):
+        if t == 'mount-point':
+            text = '../../../../mnt/v2' if c['place'] == 'home' else '../../../v2'
+        elif t.startswith('xvol'):
             text = ('../../../mnt/v2/t/' if c['place'] == 'home' else '../../../v2/t/') + abs_t.rsplit('/', 1)[1]
             # from B/real: home: /home/u/w/real -> ../../../.. is /; vol: /mnt/v1/w/real -> ../../.. is /mnt
             text = ('../../../../mnt/v2/t/' if c['place'] == 'home' else '../../../v2/t/') + abs_t.rsplit('/', 1)[1]
@@ -89,7 +91,7 @@ def run_case(c):
     dims = '|'.join('%s=%s' % (k, c[k]) for k in ('target', 'form', 'slashes', 'reach', 'place'))
     tgt_paths = [B + '/real/tfile', B + '/real/tdir', '/mnt/v2/t', B + '/real/mid-file', B + '/real/mid-dir', '/home/u/tgt', '/outside']
     changed = [p for p in tgt_paths if world.under(orig, p) != world.under(mid, p)]
-    dir_like = t in ('dir', 'chain-dir', 'xvol-dir')
+    dir_like = t in ('dir', 'chain-dir', 'xvol-dir', 'mount-point')
     blame = 'target=%s|slashes=%s' % (t, 'some' if c['slashes'] else '0')
     nt = den['resolvable'] and ('%s|%s' % (cl['state'], dims))
     if changed:
